@@ -582,5 +582,92 @@ omit [DecidableEq η] in
 /-- nothing is foreign -/
 theorem stale_false (key : AnyClaim → η) (P : AnyClaim → Prop) : Stale key P (fun _ => False) := fun _ h => h.elim
 
+/-! ### stale attestations are left exactly where they are -/
+
+theorem mem_setAtt_of_ne {atts : List (Att η)} {a b : Att η} (hb : b ∈ atts) (hne : ¬(b.nonce = a.nonce ∧ b.hash = a.hash)) :
+    b ∈ setAtt atts a := by
+  simp only [setAtt, List.mem_cons, List.mem_filter]
+  refine Or.inr ⟨hb, ?_⟩
+  simp only [sameKey, Bool.not_eq_true', Bool.and_eq_false_iff, beq_eq_false_iff_ne, ne_eq]
+  by_cases h1 : b.nonce = a.nonce
+  · exact Or.inr (fun h2 => hne ⟨h1, h2⟩)
+  · exact Or.inl h1
+
+/-- every call site hands over the attestation of the vote itself together with the voter's claim -/
+def OwnSites (sites : List TrySite) : Prop := ∀ t ∈ sites, t.att = .voted ∧ t.claim = .voter
+
+theorem trySites_own {le : η → η → Bool} {s : AState η} {a1 a : Att η} {c ch : AnyClaim} {sites : List TrySite}
+    (hown : OwnSites sites) (h : trySites le s a1 c sites = some (a, ch)) : a = a1 ∧ ch = c := by
+  obtain ⟨t, ht, hcand, hch⟩ := trySites_spec h
+  obtain ⟨h1, h2⟩ := hown t ht
+  rw [h1] at hcand
+  simp only [candidates, List.mem_singleton] at hcand
+  rw [h2] at hch
+  exact ⟨hcand, hch⟩
+
+/-- a vote leaves every attestation whose key the voter's claim does not have where it is -/
+theorem keeps_vote (sites : List TrySite) (srcs : List AttSource) (hown : OwnSites sites) (own : ∀ x ∈ srcs, x.own = true)
+    (key : AnyClaim → η) (le : η → η → Bool) (P : AnyClaim → Prop) (F : Att η → Prop) (hF : Stale key P F)
+    (s : AState η) (o : Nat) (c : AnyClaim) (hp : Bool) (hs : Inv key P F s) (hc : P c)
+    (b : Att η) (hb : F b) (hm : b ∈ s.atts) : b ∈ (voteWith sites srcs key le s o c hp).1.atts := by
+  obtain ⟨hbase, _, hn, hh⟩ := voted_own key P F le s o c srcs own hs hF hc
+  have hne : ¬(b.nonce = (votedAttWith srcs le key s o c).nonce ∧ b.hash = (votedAttWith srcs le key s o c).hash) := by
+    rw [hn, hh]
+    exact hF b hb c hc
+  have h1 : b ∈ (afterVote s (votedAttWith srcs le key s o c)).atts := mem_setAtt_of_ne hm hne
+  unfold voteWith
+  rw [hbase]
+  split
+  · exact hm
+  split
+  · exact hm
+  split
+  · rename_i a ch hhit
+    split
+    · exact hm
+    · simp only [hit] at hhit
+      split at hhit
+      · obtain ⟨rfl, rfl⟩ := trySites_own hown hhit
+        simp only [setLast, observe]
+        apply mem_setAtt_of_ne h1
+        exact hF b hb _ hc
+      · cases hhit
+  · exact h1
+
+theorem keeps_step (sites : List TrySite) (srcs : List AttSource) (hown : OwnSites sites) (own : ∀ x ∈ srcs, x.own = true)
+    (key : AnyClaim → η) (le : η → η → Bool) (P : AnyClaim → Prop) (F : Att η → Prop) (hF : Stale key P F)
+    (s : AState η) (op : Op) (hs : Inv key P F s) (hop : ∀ o c hp, op = .vote o c hp → P c)
+    (b : Att η) (hb : F b) (hm : b ∈ s.atts) : b ∈ (stepWith sites srcs key le s op).atts := by
+  cases op with
+  | vote o c hp => exact keeps_vote sites srcs hown own key le P F hF s o c hp hs (hop o c hp rfl) b hb hm
+  | setPower o p => cases p <;> exact hm
+  | setTotal t => exact hm
+  | setExts xs => exact hm
+  | setLastObserved n => exact hm
+  | setOracleLast o n => cases n <;> exact hm
+  | execute n f =>
+    simp only [stepWith, execute]
+    split
+    · exact hm
+    · split <;> exact hm
+
+theorem keeps_run (sites : List TrySite) (srcs : List AttSource) (wk : ∀ t ∈ sites, t.wellKeyed = true) (hown : OwnSites sites)
+    (own : ∀ x ∈ srcs, x.own = true) (key : AnyClaim → η) (le : η → η → Bool) (P : AnyClaim → Prop) (F : Att η → Prop)
+    (hF : Stale key P F) (ops : List Op) (s : AState η) (hs : Inv key P F s) (hops : ∀ c ∈ Op.claims ops, P c)
+    (b : Att η) (hb : F b) (hm : b ∈ s.atts) : b ∈ (runWith sites srcs key le s ops).atts := by
+  induction ops generalizing s with
+  | nil => exact hm
+  | cons op r ih =>
+    simp only [runWith, List.foldl_cons]
+    have hop : ∀ o c hp, op = .vote o c hp → P c := by
+      intro o c hp e
+      subst e
+      exact hops c (mem_claims_of_vote List.mem_cons_self)
+    apply ih
+    · exact inv_step sites srcs wk own key le P F hF (Or.inl fun t ht => (hown t ht).1) s op hs hop
+    · intro c hc
+      exact hops c (claims_cons_subset hc)
+    · exact keeps_step sites srcs hown own key le P F hF s op hs hop b hb hm
+
 end
 end FxVerif.Proofs.C03
